@@ -101,10 +101,11 @@ const (
 	CrashBefore           // no effect, the actor is dead for the rest of the reconcile
 	CrashAfter            // effect applied, the actor is dead for the rest of the reconcile
 	CacheMiss             // reads only: 404 although the object exists (an informer cache that has not seen it yet)
+	FailNoMatch           // no effect: "no matches for kind" (the kind is not served: its CRD is not installed / established)
 )
 
 func (d Decision) String() string {
-	return [...]string{"", "error", "conflict", "crashBefore", "crashAfter", "cacheMiss"}[d]
+	return [...]string{"", "error", "conflict", "crashBefore", "crashAfter", "cacheMiss", "noMatch"}[d]
 }
 
 // Call describes a call about to be served.
